@@ -50,6 +50,7 @@ def subspaces(tier):
     s4, s3 = D.shapes(3, 4), D.shapes(3, 3)
     out += C.structure_subspaces(s4, 2, False, mode="observers", filter="none")
     out += C.structure_subspaces(s3, 2, True, only_flexible=True, mode="observers", filter="none")
+    out += C.wide_subspaces(mode="observers", filter="none", pairs=((1, 8),)) + C.tall_subspaces(mode="observers", filter="none")
     out += C.structure_subspaces(s3 + [(2, 2)], 2, False, mode="observers", filter="dominated")
     out += C.structure_subspaces(D.shapes(2, 2), 2, True, only_flexible=True, mode="observers", filter="dominated")
     out += C.structure_subspaces(D.shapes(2, 3) + [(2, 2)], 2, False, canonical=True, mode="second-run", filter="none")
